@@ -126,6 +126,24 @@ func (s *c05Spec) label(seq []c05Op) string {
 func (s *c05Spec) write(seq []c05Op) *commit.Buffer {
 	b := commit.NewBuffer(64)
 	b.Reset("col")
+	s.writeInto(b, seq)
+	return b
+}
+
+// used returns a buffer that already carried another sequence (two blocks, ending
+// on a high offset), as the pooled buffers of transactions and the scratch buffer of
+// CreateIndex do.
+func (s *c05Spec) used() *commit.Buffer {
+	b := commit.NewBuffer(64)
+	b.Reset("old")
+	b.PutUint64(commit.Put, 5000, 0x0102030405060708)
+	b.PutBytes(commit.Merge, 5001, []byte("previous"))
+	b.PutOperation(commit.Delete, 20001)
+	b.PutUint16(commit.Put, 20007, 7)
+	return b
+}
+
+func (s *c05Spec) writeInto(b *commit.Buffer, seq []c05Op) {
 	for _, o := range seq {
 		k := &s.kinds[o.kind]
 		switch k.width {
@@ -145,7 +163,6 @@ func (s *c05Spec) write(seq []c05Op) *commit.Buffer {
 			b.PutBytes(k.op, o.off, k.payload)
 		}
 	}
-	return b
 }
 
 func (s *c05Spec) expect(seq []c05Op, swapped bool) []c05Rec {
@@ -365,6 +382,11 @@ func (s *c05Spec) check(seq []c05Op, logq *[]c05Logged) (vs []eng.Violation) {
 	b := s.write(seq)
 	s.checkViews("buffer", b, want, chunks, lbl, &vs)
 	s.checkViews("buffer-clone", b.Clone(), want, chunks, lbl, &vs)
+	// the same sequence on a recycled buffer (written, Reset, written again)
+	rb := s.used()
+	rb.Reset("col")
+	s.writeInto(rb, seq)
+	s.checkViews("buffer-recycled", rb, want, chunks, lbl, &vs)
 	var w bytes.Buffer
 	if _, err := b.WriteTo(&w); err != nil {
 		vs = append(vs, eng.Violation{Assert: "buffer-codec/error", Witness: "error", Detail: err.Error()})
@@ -377,6 +399,21 @@ func (s *c05Spec) check(seq []c05Op, logq *[]c05Logged) (vs []eng.Violation) {
 				vs = append(vs, eng.Violation{Assert: "buffer-codec/column", Witness: "column name", Detail: nb.Column})
 			}
 			s.checkViews("buffer-codec", nb, want, chunks, lbl, &vs)
+		}
+	}
+	// recycled on both sides of the codec: encode the recycled buffer, decode into a used one
+	w.Reset()
+	if _, err := rb.WriteTo(&w); err != nil {
+		vs = append(vs, eng.Violation{Assert: "buffer-codec/error", Witness: "error", Detail: err.Error()})
+	} else {
+		nb := s.used()
+		if _, err := nb.ReadFrom(&w); err != nil {
+			vs = append(vs, eng.Violation{Assert: "buffer-codec/error", Witness: "error", Detail: err.Error()})
+		} else {
+			if nb.Column != "col" {
+				vs = append(vs, eng.Violation{Assert: "buffer-codec/column", Witness: "column name", Detail: nb.Column})
+			}
+			s.checkViews("buffer-codec-recycled", nb, want, chunks, lbl, &vs)
 		}
 	}
 	for _, c := range chunks {
